@@ -23,12 +23,14 @@ import (
 	"sort"
 	"strings"
 	"sync"
+	"sync/atomic"
 	"time"
 
 	"github.com/gopcua/opcua"
 	"github.com/gopcua/opcua/id"
 	"github.com/gopcua/opcua/server"
 	"github.com/gopcua/opcua/ua"
+	"github.com/gopcua/opcua/uacp"
 	"github.com/gopcua/opcua/uapolicy"
 	"github.com/gopcua/opcua/uasc"
 
@@ -49,6 +51,16 @@ type endp struct {
 	Pol  string `json:"pol"`
 	Mode string `json:"mode"`
 	Toks []tokp `json:"toks"`
+	URL  string `json:"url,omitempty"`
+}
+
+// view is one reading of the advertised endpoints: which endpoint URL was asked for, when, what came back.
+type view struct {
+	URL  string `json:"url"`
+	When string `json:"when"`
+	Src  string `json:"src"` // wire | api
+	Eps  []endp `json:"eps"`
+	Err  string `json:"err,omitempty"`
 }
 type cfgT struct {
 	Pairs []pair   `json:"pairs"`
@@ -84,8 +96,11 @@ type obs struct {
 	API         []endp `json:"api,omitempty"`  // Server.Endpoints()
 	Wire        []endp `json:"wire,omitempty"` // GetEndpoints over the wire
 	WireErr     string `json:"wireErr,omitempty"`
+	Views       []view `json:"views,omitempty"` // every reading of the advertised list (both endpoint URLs, start and end of the run)
 	Local       bool   `json:"local,omitempty"` // the client library refused to build such a channel
 	Established bool   `json:"established,omitempty"`
+	SrvOpened   bool   `json:"srvOpened,omitempty"` // the server side reached the end of its OPN handling (verif hook srv.opn.end)
+	RawOpn      bool   `json:"rawOpn,omitempty"`    // driven through a uasc client channel whose request carries the invalid combination
 	Usable      bool   `json:"usable,omitempty"`
 	Err         string `json:"err,omitempty"`
 	Stage       string `json:"stage,omitempty"`
@@ -111,6 +126,9 @@ func main() {
 		return
 	case "connect":
 		childConnect()
+		return
+	case "overlap":
+		childOverlap()
 		return
 	}
 	rows := vfgo.Cases[row]()
@@ -192,6 +210,9 @@ func runGroup(rs []row) {
 		}
 	}
 	srvObs, started := byI[-1]
+	if end, ok := byI[-2]; ok {
+		srvObs.Views = append(srvObs.Views, end.Views...)
+	}
 	for i, r := range rs {
 		o, ok := byI[i]
 		if !started || !ok {
@@ -270,7 +291,38 @@ func evalAdv(r row, o obs) {
 		vfgo.Violation(r, class, "wire-and-api-endpoints-differ", fmt.Sprintf("wire %v api %v", o.Wire, o.API))
 		return
 	}
-	vfgo.OK(r, class, map[string]any{"src": src, "advertised": len(have)})
+	// the invariant holds in every state: every reading (each endpoint URL, start and end of the run,
+	// over the wire and through Server.Endpoints()) must show exactly the enabled pairs
+	nviews := 0
+	for _, v := range o.Views {
+		if v.Err != "" {
+			continue // could not be read (e.g. nothing enabled): the other readings decide
+		}
+		nviews++
+		hv := pairSet(v.Eps)
+		dup := len(v.Eps) != len(hv)
+		for p := range hv {
+			if !want[p] {
+				vfgo.Violation(r, class, "advertised-pair-not-enabled", fmt.Sprintf("reading %s/%s of %s shows %v which is not enabled; enabled %v", v.When, v.Src, v.URL, p, r.Cfg.Pairs))
+				return
+			}
+		}
+		for p := range want {
+			if !hv[p] {
+				key := "enabled-pair-not-advertised"
+				if v.When != "start" || v.URL != o.Views[0].URL {
+					key = "advertised-endpoints-depend-on-earlier-requests"
+				}
+				vfgo.Violation(r, class, key, fmt.Sprintf("reading %s/%s of %s lacks enabled pair %v; shows %v", v.When, v.Src, v.URL, p, v.Eps))
+				return
+			}
+		}
+		if dup {
+			vfgo.Violation(r, class, "endpoint-advertised-twice", fmt.Sprintf("reading %s/%s of %s: %v", v.When, v.Src, v.URL, v.Eps))
+			return
+		}
+	}
+	vfgo.OK(r, class, map[string]any{"src": src, "advertised": len(have), "readings": nviews})
 }
 
 func supported(p pair) bool {
@@ -287,25 +339,25 @@ func evalOpn(r row, o obs) {
 	enabled := pairSet(r.Adv)[pair{r.Pol, r.Mode}]
 	class := fmt.Sprintf("opn/%s/%s/enabled=%v/%s", r.Pol, r.Mode, enabled, cfgShape(r.Cfg))
 	if o.Local {
-		// the real client cannot express this OPN; not driven (see raw rows)
+		// the real client cannot express this OPN; not driven
 		vfgo.Emit(vfgo.Result{Case: r, Status: "ok", Class: "", Nontrivial: false, Obs: "client library refuses to build this channel locally: " + o.Err})
 		return
 	}
 	switch {
-	case exp == "refused" && o.Established:
+	case exp == "refused" && (o.Established || o.SrvOpened):
 		key := "secured-channel-opened-for-pair-not-enabled"
 		if r.Pol == "None" && r.Mode == "None" {
 			key = "none-channel-opened-though-not-enabled"
 		} else if !supported(pair{r.Pol, r.Mode}) {
 			key = "channel-opened-for-invalid-policy-mode-combination"
 		}
-		vfgo.Violation(r, class, key, fmt.Sprintf("OPN %s/%s was accepted (usable=%v) by a server that enabled only %v", r.Pol, r.Mode, o.Usable, r.Cfg.Pairs))
+		vfgo.Violation(r, class, key, fmt.Sprintf("OPN %s/%s was accepted (client open=%v, server completed the OPN=%v, usable=%v) by a server that enabled only %v", r.Pol, r.Mode, o.Established, o.SrvOpened, o.Usable, r.Cfg.Pairs))
 	case exp == "open" && !o.Established:
 		vfgo.Violation(r, class, "enabled-pair-refused", fmt.Sprintf("OPN %s/%s refused (%s) although enabled", r.Pol, r.Mode, o.Err))
 	case exp == "open" && !o.Usable:
 		vfgo.Violation(r, class, "enabled-pair-channel-unusable", fmt.Sprintf("OPN %s/%s accepted but a request on the channel failed: %s", r.Pol, r.Mode, o.Err))
 	default:
-		vfgo.OK(r, class, map[string]any{"established": o.Established, "err": o.Err})
+		vfgo.OK(r, class, map[string]any{"established": o.Established, "srvOpened": o.SrvOpened, "raw": o.RawOpn, "err": tailStr(o.Err, 120)})
 	}
 }
 
@@ -378,6 +430,7 @@ func startServer(c cfgT) (*server.Server, string, *keys.Pair, error) {
 		port := freePort()
 		opts := []server.Option{
 			server.EndPoint("127.0.0.1", port),
+			server.EndPoint("localhost", port), // second endpoint URL of the same listener
 			server.PrivateKey(sk.Key),
 			server.Certificate(sk.Cert),
 		}
@@ -412,7 +465,7 @@ func startServer(c cfgT) (*server.Server, string, *keys.Pair, error) {
 func toEndp(eps []*ua.EndpointDescription) []endp {
 	var res []endp
 	for _, e := range eps {
-		x := endp{Pol: strings.TrimPrefix(e.SecurityPolicyURI, ua.SecurityPolicyURIPrefix), Mode: strings.TrimPrefix(e.SecurityMode.String(), "MessageSecurityMode")}
+		x := endp{Pol: strings.TrimPrefix(e.SecurityPolicyURI, ua.SecurityPolicyURIPrefix), Mode: strings.TrimPrefix(e.SecurityMode.String(), "MessageSecurityMode"), URL: e.EndpointURL}
 		x.Toks = toToks(e.UserIdentityTokens)
 		res = append(res, x)
 	}
@@ -445,13 +498,42 @@ func childServer() {
 		os.Exit(3)
 	}
 	enc := json.NewEncoder(os.Stdout)
+	uasc.VerifHook.Store(func(point string, sc *uasc.SecureChannel, kv ...any) {
+		if point == "srv.opn.end" {
+			atomic.AddInt64(&srvOpened, 1)
+		}
+	})
 	srv, url, sk, err := startServer(job.Cfg)
 	if err != nil {
 		fmt.Fprintln(os.Stderr, "cannot start server:", err)
 		os.Exit(4)
 	}
 	defer srv.Close()
+	urlB := strings.Replace(url, "127.0.0.1", "localhost", 1)
+	readViews := func(when string, urls ...string) []view {
+		var vs []view
+		for _, u := range urls {
+			v := view{URL: u, When: when, Src: "wire"}
+			eps, err := discoverURL(url, u, job.Cfg, sk)
+			if err != nil {
+				v.Err = err.Error()
+			} else {
+				v.Eps = toEndp(eps)
+			}
+			vs = append(vs, v)
+			// the server's own view of the same URL
+			av := view{URL: u, When: when, Src: "api"}
+			for _, e := range toEndp(srv.Endpoints()) {
+				if e.URL == u {
+					av.Eps = append(av.Eps, e)
+				}
+			}
+			vs = append(vs, av)
+		}
+		return vs
+	}
 	so := obs{I: -1, API: toEndp(srv.Endpoints())}
+	so.Views = readViews("start", url, urlB, url)
 	eps, err := discover(url, job.Cfg, sk)
 	if err != nil {
 		so.WireErr = err.Error()
@@ -459,6 +541,9 @@ func childServer() {
 		so.Wire = toEndp(eps)
 	}
 	enc.Encode(so)
+	defer func() {
+		enc.Encode(obs{I: -2, Views: readViews("end", urlB, url)})
+	}()
 	for i, r := range job.Rows {
 		var o obs
 		switch r.Kind {
@@ -472,6 +557,52 @@ func childServer() {
 		o.I = i
 		enc.Encode(o)
 	}
+}
+
+// discoverURL connects to connectURL and asks for the endpoints of askURL (GetEndpointsRequest.EndpointURL).
+func discoverURL(connectURL, askURL string, c cfgT, sk *keys.Pair) ([]*ua.EndpointDescription, error) {
+	try := func(opts ...opcua.Option) ([]*ua.EndpointDescription, error) {
+		ctx, cancel := context.WithTimeout(context.Background(), 10*time.Second)
+		defer cancel()
+		opts = append(opts, opcua.AutoReconnect(false), opcua.RequestTimeout(5*time.Second))
+		cl, err := opcua.NewClient(connectURL, opts...)
+		if err != nil {
+			return nil, err
+		}
+		if err := cl.Dial(ctx); err != nil {
+			return nil, err
+		}
+		defer cl.Close(ctx)
+		var res *ua.GetEndpointsResponse
+		err = cl.Send(ctx, &ua.GetEndpointsRequest{EndpointURL: askURL}, func(v ua.Response) error {
+			r, ok := v.(*ua.GetEndpointsResponse)
+			if !ok {
+				return fmt.Errorf("unexpected response %T", v)
+			}
+			res = r
+			return nil
+		})
+		if err != nil {
+			return nil, err
+		}
+		return res.Endpoints, nil
+	}
+	eps, err := try()
+	if err == nil {
+		return eps, nil
+	}
+	for _, p := range c.Pairs {
+		if p.Pol == "None" {
+			continue
+		}
+		ck := keys.Bits(c.Skey)
+		ep := &ua.EndpointDescription{SecurityPolicyURI: ua.FormatSecurityPolicyURI(p.Pol), SecurityMode: modeOf(p.Mode), ServerCertificate: sk.Cert}
+		if eps, err2 := try(opcua.SecurityFromEndpoint(ep, ua.UserTokenTypeAnonymous), opcua.PrivateKey(ck.Key), opcua.Certificate(ck.Cert)); err2 == nil {
+			return eps, nil
+		}
+		break
+	}
+	return nil, err
 }
 
 // discover reads the endpoints over the wire: over a None channel as any client would; if the
@@ -501,7 +632,97 @@ func discover(url string, c cfgT, sk *keys.Pair) ([]*ua.EndpointDescription, err
 	return nil, err
 }
 
+var srvOpened int64 // OPN handshakes the server side completed (child process only)
+
+// sawServerOpen reports whether the server completed an OPN since 'before'; the server reaches that
+// point just after it sent the response, so give it a moment.
+func sawServerOpen(before int64, patience time.Duration) bool {
+	deadline := time.Now().Add(patience)
+	for {
+		if atomic.LoadInt64(&srvOpened) > before {
+			return true
+		}
+		if time.Now().After(deadline) {
+			return false
+		}
+		time.Sleep(5 * time.Millisecond)
+	}
+}
+
 func doOpn(url string, r row, sk *keys.Pair) obs {
+	before := atomic.LoadInt64(&srvOpened)
+	var o obs
+	if supported(pair{r.Pol, r.Mode}) {
+		o = doOpnClient(url, r, sk)
+	} else {
+		o = doOpnRaw(url, r, sk)
+	}
+	patience := 150 * time.Millisecond
+	if o.Established {
+		patience = 2 * time.Second
+	}
+	o.SrvOpened = sawServerOpen(before, patience)
+	return o
+}
+
+// doOpnRaw sends an OpenSecureChannel request with a (policy, mode) combination that the client library
+// refuses to configure: a real uasc client channel is created with a valid mode for the policy and the
+// mode in its configuration is replaced before Open, so the request carries the invalid combination
+// (asymmetric crypto of the OPN follows the policy).
+func doOpnRaw(url string, r row, sk *keys.Pair) obs {
+	o := obs{RawOpn: true}
+	ctx, cancel := context.WithTimeout(context.Background(), 8*time.Second)
+	defer cancel()
+	ack := *uacp.DefaultClientACK
+	d := &uacp.Dialer{Dialer: &net.Dialer{Timeout: 4 * time.Second}, ClientACK: &ack}
+	conn, err := d.Dial(ctx, url)
+	if err != nil {
+		o.Err = "dial: " + err.Error()
+		return o
+	}
+	defer conn.Close()
+	cfg := &uasc.Config{SecurityPolicyURI: ua.FormatSecurityPolicyURI(r.Pol), SecurityMode: ua.MessageSecurityModeNone,
+		Lifetime: 3600 * 1000, RequestTimeout: 3 * time.Second}
+	if r.Pol != "None" {
+		ck := keys.Bits(r.Ckey)
+		cfg.SecurityMode = ua.MessageSecurityModeSign
+		cfg.Certificate, cfg.LocalKey = ck.Cert, ck.Key
+		cfg.RemoteCertificate, cfg.Thumbprint = sk.Cert, uapolicy.Thumbprint(sk.Cert)
+	}
+	errch := make(chan error, 8)
+	sc, err := uasc.NewSecureChannel(url, conn, cfg, errch)
+	if err != nil {
+		o.Local, o.Err = true, err.Error()
+		return o
+	}
+	cfg.SecurityMode = modeOf(r.Mode)
+	// the client side of such a channel is outside what the library supports (it validates the
+	// combination at construction): a panic in our own calling goroutine is not an observation
+	// about the server; the server side is observed through the srv.opn.end hook.
+	var oerr error
+	if p, msg := vfgo.Recover(func() { oerr = sc.Open(ctx) }); p {
+		// happens before anything is sent (the client computes its body size from the policy/mode): not driven
+		o.Local, o.Err = true, "client side of the hand-made channel panicked: "+msg
+		conn.Close()
+		return o
+	}
+	if oerr != nil {
+		o.Err = oerr.Error()
+		return o
+	}
+	o.Established = true
+	var got ua.Response
+	err = sc.SendRequest(ctx, &ua.GetEndpointsRequest{EndpointURL: url}, nil, func(v ua.Response) error { got = v; return nil })
+	if err == nil && got != nil {
+		o.Usable = true
+	} else if err != nil {
+		o.Err = "request on the opened channel: " + err.Error()
+	}
+	go sc.Close()
+	return o
+}
+
+func doOpnClient(url string, r row, sk *keys.Pair) obs {
 	var o obs
 	ep := &ua.EndpointDescription{SecurityPolicyURI: ua.FormatSecurityPolicyURI(r.Pol), SecurityMode: modeOf(r.Mode), ServerCertificate: sk.Cert}
 	opts := []opcua.Option{opcua.SecurityFromEndpoint(ep, ua.UserTokenTypeAnonymous), opcua.AutoReconnect(false),
@@ -682,8 +903,172 @@ func childConnect() {
 	}
 }
 
+type overlapObs struct {
+	Stage      string `json:"stage"`
+	Err        string `json:"err"`
+	FirstSess  bool   `json:"firstSess"`
+	FirstErr   string `json:"firstErr"`
+	SecondSess bool   `json:"secondSess"`
+	SecondErr  string `json:"secondErr"`
+	Done       bool   `json:"done"`
+}
+
+// childOverlap issues two overlapping CreateSession calls on one client (the script holds the first
+// response until the second request has arrived).
+func childOverlap() {
+	var job connectJob
+	b, _ := io.ReadAll(os.Stdin)
+	if err := json.Unmarshal(b, &job); err != nil {
+		os.Exit(3)
+	}
+	enc := json.NewEncoder(os.Stdout)
+	var o overlapObs
+	ctx, cancel := context.WithTimeout(context.Background(), 25*time.Second)
+	defer cancel()
+	eps, err := opcua.GetEndpoints(ctx, job.URL, opcua.RequestTimeout(5*time.Second))
+	if err != nil {
+		o.Stage, o.Err = "discover", err.Error()
+		enc.Encode(o)
+		return
+	}
+	ep, err := opcua.SelectEndpoint(eps, job.Pol, modeOf(job.Mode))
+	if err != nil {
+		o.Stage, o.Err = "select", err.Error()
+		enc.Encode(o)
+		return
+	}
+	ck := keys.Bits(job.Ckey)
+	c, err := opcua.NewClient(job.URL, opcua.AuthAnonymous(), opcua.SecurityFromEndpoint(ep, ua.UserTokenTypeAnonymous),
+		opcua.AutoReconnect(false), opcua.RequestTimeout(8*time.Second), opcua.DialTimeout(5*time.Second),
+		opcua.PrivateKey(ck.Key), opcua.Certificate(ck.Cert))
+	if err != nil {
+		o.Stage, o.Err = "newclient", err.Error()
+		enc.Encode(o)
+		return
+	}
+	if err := c.Dial(ctx); err != nil {
+		o.Stage, o.Err = "dial", err.Error()
+		enc.Encode(o)
+		return
+	}
+	o.Stage = "create"
+	type res struct {
+		s   *opcua.Session
+		err error
+	}
+	first := make(chan res, 1)
+	go func() {
+		s, err := c.CreateSession(ctx, opcua.DefaultSessionConfig())
+		first <- res{s, err}
+	}()
+	time.Sleep(400 * time.Millisecond)
+	s2, err2 := c.CreateSession(ctx, opcua.DefaultSessionConfig())
+	r1 := <-first
+	o.FirstSess, o.SecondSess = r1.s != nil && r1.err == nil, s2 != nil && err2 == nil
+	if r1.err != nil {
+		o.FirstErr = r1.err.Error()
+	}
+	if err2 != nil {
+		o.SecondErr = err2.Error()
+	}
+	o.Done = true
+	enc.Encode(o)
+	os.Stdout.Sync()
+	c.Close(ctx)
+}
+
+// runOverlap: the script answers the first of two overlapping CreateSession requests with a signature over
+// (client certificate + nonce of the SECOND request) -- "other data" -- and the second one correctly.
+// Returns a violation key ("" = conforms) and a detail text; ok=false when it could not be driven.
+func runOverlap(r row) (key, detail string, ok bool) {
+	var mu sync.Mutex
+	var srv *scriptsrv.Server
+	var heldSC *uasc.SecureChannel
+	var heldID uint32
+	var heldReq *ua.CreateSessionRequest
+	n := 0
+	overlapped := false
+	mk := func(sc *uasc.SecureChannel, req *ua.CreateSessionRequest, nonceFrom *ua.CreateSessionRequest) ua.Response {
+		sig, alg, err := sc.NewSessionSignature(req.ClientCertificate, nonceFrom.ClientNonce)
+		if err != nil {
+			return scriptsrv.Fault(req, ua.StatusBadInternalError)
+		}
+		nonce := make([]byte, 32)
+		rand.Read(nonce)
+		return &ua.CreateSessionResponse{
+			ResponseHeader: scriptsrv.Header(req, ua.StatusOK), SessionID: ua.NewNumericNodeID(1, 4711), AuthenticationToken: ua.NewNumericNodeID(1, 4712),
+			RevisedSessionTimeout: 60000, ServerNonce: nonce, ServerCertificate: srv.Key.Cert,
+			ServerEndpoints:            []*ua.EndpointDescription{srv.Endpoint(r.Pol, r.Mode)},
+			ServerSoftwareCertificates: []*ua.SignedSoftwareCertificate{}, ServerSignature: &ua.SignatureData{Algorithm: alg, Signature: sig}}
+	}
+	h := func(sc *uasc.SecureChannel, reqID uint32, req ua.Request) ua.Response {
+		switch q := req.(type) {
+		case *ua.GetEndpointsRequest:
+			return &ua.GetEndpointsResponse{ResponseHeader: scriptsrv.Header(req, ua.StatusOK), Endpoints: []*ua.EndpointDescription{srv.Endpoint(r.Pol, r.Mode)}}
+		case *ua.CreateSessionRequest:
+			mu.Lock()
+			n++
+			k := n
+			mu.Unlock()
+			if k == 1 {
+				mu.Lock()
+				heldSC, heldID, heldReq = sc, reqID, q
+				mu.Unlock()
+				go func() { // if the client never overlaps, answer properly after a while
+					time.Sleep(4 * time.Second)
+					mu.Lock()
+					done := overlapped
+					mu.Unlock()
+					if !done {
+						sc.SendResponseWithContext(context.Background(), reqID, mk(sc, q, q))
+					}
+				}()
+				return nil
+			}
+			if k == 2 {
+				mu.Lock()
+				overlapped = true
+				hs, hid, hreq := heldSC, heldID, heldReq
+				mu.Unlock()
+				hs.SendResponseWithContext(context.Background(), hid, mk(hs, hreq, q)) // first request, nonce of the second
+			}
+			return mk(sc, q, q)
+		case *ua.CloseSessionRequest:
+			return &ua.CloseSessionResponse{ResponseHeader: scriptsrv.Header(req, ua.StatusOK)}
+		}
+		return scriptsrv.Fault(req, ua.StatusBadServiceUnsupported)
+	}
+	var err error
+	srv, err = scriptsrv.Start("2048b", h)
+	if err != nil {
+		return "", "scripted server: " + err.Error(), false
+	}
+	defer srv.Close()
+	in, _ := json.Marshal(connectJob{URL: srv.URL, Pol: r.Pol, Mode: r.Mode, Ckey: r.Ckey})
+	out := vfgo.RunChild("overlap", in, 40*time.Second)
+	var o overlapObs
+	json.Unmarshal(bytes.TrimSpace(out.Stdout), &o)
+	mu.Lock()
+	ov := overlapped
+	mu.Unlock()
+	detail = fmt.Sprintf("overlapping CreateSession, policy=%s mode=%s: first answered with a signature over the second request's nonce: child exit=%d panic=%v obs=%+v overlapped=%v", r.Pol, r.Mode, out.Exit, out.Panic, o, ov)
+	if out.Panic {
+		return "create-session-panics", detail + "\n" + vfgo.PanicHead(out.Stderr), true
+	}
+	if !o.Done || !ov {
+		return "", detail, false
+	}
+	if o.FirstSess {
+		return "session-created-with-signature-over-another-requests-nonce", detail, true
+	}
+	if !o.SecondSess {
+		return "valid-signature-rejected-when-requests-overlap", detail, true
+	}
+	return "", detail, true
+}
+
 // signature builds the server signature of the given class for a CreateSession request.
-func signature(class string, sc *uasc.SecureChannel, srv *scriptsrv.Server, pol string, ckey int, req *ua.CreateSessionRequest, variant int) ([]byte, string, error) {
+func signature(class string, sc *uasc.SecureChannel, srv *scriptsrv.Server, pol string, ckey int, req *ua.CreateSessionRequest, variant, pick int) ([]byte, string, error) {
 	good, alg, err := sc.NewSessionSignature(req.ClientCertificate, req.ClientNonce)
 	if err != nil {
 		return nil, "", err
@@ -705,10 +1090,21 @@ func signature(class string, sc *uasc.SecureChannel, srv *scriptsrv.Server, pol 
 		return good, alg, nil
 	case "corrupted":
 		b := append([]byte(nil), good...)
-		b[variant%len(b)] ^= 1 << uint(variant%8)
+		switch variant {
+		case 0: // one bit flipped (position from the seed)
+			b[pick%len(b)] ^= 1 << uint(pick%8)
+		case 1: // truncated
+			b = b[:len(b)-1-pick%(len(b)/2)]
+		case 2: // extended
+			b = append(b, byte(pick), byte(pick>>8))
+		case 3: // all zero, right length
+			for i := range b {
+				b[i] = 0
+			}
+		}
 		return b, alg, nil
 	case "empty":
-		if variant%2 == 0 {
+		if variant == 0 {
 			return nil, alg, nil
 		}
 		return []byte{}, "", nil
@@ -729,7 +1125,7 @@ func signature(class string, sc *uasc.SecureChannel, srv *scriptsrv.Server, pol 
 		return s, alg, err
 	case "otherdata":
 		var data []byte
-		switch variant % 4 {
+		switch variant {
 		case 0: // certificate without the nonce
 			data = append([]byte(nil), req.ClientCertificate...)
 		case 1: // the server's own certificate + client nonce
@@ -747,11 +1143,44 @@ func signature(class string, sc *uasc.SecureChannel, srv *scriptsrv.Server, pol 
 	return nil, "", fmt.Errorf("unknown class %s", class)
 }
 
+// every member of a signature class is tried for every (policy, mode): the row conforms only if all do
+var sigVariants = map[string][]string{
+	"valid":     {"valid"},
+	"na":        {"valid"},
+	"corrupted": {"bit-flipped", "truncated", "extended", "all-zero"},
+	"empty":     {"nil", "zero-length"},
+	"otherkey":  {"third-key"},
+	"otherdata": {"certificate-only", "server-certificate+nonce", "certificate+fresh-nonce", "nonce+certificate"},
+}
+
 func runSig(r row) {
+	vs := sigVariants[r.Sig]
+	var last vfgo.Result
+	for i := range vs {
+		res, final := runSigVariant(r, i, vs[i], i == len(vs)-1)
+		if res.Status != "ok" || final {
+			vfgo.Emit(res)
+			return
+		}
+		last = res
+	}
+	vfgo.Emit(last)
+}
+
+func runSigVariant(r row, variant int, vname string, lastVariant bool) (vfgo.Result, bool) {
+	okRes := func(class string, obs any) vfgo.Result {
+		return vfgo.Result{Case: r, Status: "ok", Class: class, Nontrivial: true, Obs: obs}
+	}
+	viol := func(class, key, detail string) vfgo.Result {
+		return vfgo.Result{Case: r, Status: "violation", Class: class, Nontrivial: true, Key: key, Detail: detail}
+	}
+	inconc := func(detail string) vfgo.Result {
+		return vfgo.Result{Case: r, Status: "inconclusive", Detail: detail}
+	}
 	var exp expectT
 	json.Unmarshal(r.Expect, &exp)
 	class := fmt.Sprintf("sig/%s/%s/%s", r.Pol, r.Mode, r.Sig)
-	variant := int(vfgo.Rand(int64(len(r.Pol)*7 + len(r.Mode)*3 + len(r.Sig))).Intn(1 << 16))
+	pick := int(vfgo.Rand(int64(len(r.Pol)*7 + len(r.Mode)*3 + len(r.Sig) + variant*101)).Intn(1 << 16))
 	sigClass := r.Sig
 	if sigClass == "na" {
 		sigClass = "valid"
@@ -768,7 +1197,7 @@ func runSig(r row) {
 			var alg string
 			if r.Mode != "None" {
 				var err error
-				sig, alg, err = signature(sigClass, sc, srv, r.Pol, r.Ckey, q, variant)
+				sig, alg, err = signature(sigClass, sc, srv, r.Pol, r.Ckey, q, variant, pick)
 				if err != nil {
 					mu.Lock()
 					scriptErr = err.Error()
@@ -804,8 +1233,7 @@ func runSig(r row) {
 	var err error
 	srv, err = scriptsrv.Start("2048b", h) // never the client's key pair (keys.Bits gives the "a" pairs)
 	if err != nil {
-		vfgo.Inconclusive(r, "scripted server: "+err.Error())
-		return
+		return inconc("scripted server: " + err.Error()), true
 	}
 	defer srv.Close()
 	in, _ := json.Marshal(connectJob{URL: srv.URL, Pol: r.Pol, Mode: r.Mode, Ckey: r.Ckey})
@@ -816,10 +1244,9 @@ func runSig(r row) {
 	mu.Lock()
 	se := scriptErr
 	mu.Unlock()
-	detail := fmt.Sprintf("policy=%s mode=%s signature=%s(variant %d): child exit=%d panic=%v timedout=%v obs=%+v serverSawActivate=%v", r.Pol, r.Mode, r.Sig, variant, out.Exit, out.Panic, out.TimedOut, o, activated)
+	detail := fmt.Sprintf("policy=%s mode=%s signature=%s/%s(%d): child exit=%d panic=%v timedout=%v obs=%+v serverSawActivate=%v", r.Pol, r.Mode, r.Sig, vname, pick, out.Exit, out.Panic, out.TimedOut, o, activated)
 	if se != "" {
-		vfgo.Inconclusive(r, "script could not build the signature: "+se)
-		return
+		return inconc("script could not build the signature: " + se), true
 	}
 	if out.Panic {
 		key := "connect-panics"
@@ -829,39 +1256,43 @@ func runSig(r row) {
 		if exp.State == "Connected" {
 			key = "connect-panics-with-valid-signature"
 		}
-		vfgo.Violation(r, class, key, detail+"\n"+vfgo.PanicHead(out.Stderr))
-		return
+		return viol(class, key, detail+"\n"+vfgo.PanicHead(out.Stderr)), true
 	}
 	if out.TimedOut || !o.Done {
 		if o.Stage == "discover" || o.Stage == "select" || o.Stage == "newclient" {
-			vfgo.Inconclusive(r, "client could not be driven to Connect: "+detail)
-			return
+			return inconc("client could not be driven to Connect: " + detail), true
 		}
-		vfgo.Inconclusive(r, "child did not finish: "+detail+" "+tailStr(out.Stderr, 300))
-		return
+		return inconc("child did not finish: " + detail + " " + tailStr(out.Stderr, 300)), true
 	}
 	if exp.State == "Connected" {
 		switch {
 		case o.Err != "":
-			vfgo.Violation(r, class, "connect-fails-with-valid-signature", detail)
+			return viol(class, "connect-fails-with-valid-signature", detail), true
 		case o.State != "Connected":
-			vfgo.Violation(r, class, "not-connected-with-valid-signature", detail)
-		default:
-			vfgo.OK(r, class, o)
+			return viol(class, "not-connected-with-valid-signature", detail), true
 		}
-		return
+		return okRes(class, o), true
 	}
 	// bad signature: error, not connected, no session activated on the server
 	switch {
 	case o.Err == "" && o.State == "Connected":
-		vfgo.Violation(r, class, "connected-despite-bad-server-signature", detail)
+		return viol(class, "connected-despite-bad-server-signature", detail), true
 	case o.Err == "":
-		vfgo.Violation(r, class, "no-error-for-bad-server-signature", detail)
+		return viol(class, "no-error-for-bad-server-signature", detail), true
 	case o.State == "Connected":
-		vfgo.Violation(r, class, "state-connected-after-failed-connect", detail)
+		return viol(class, "state-connected-after-failed-connect", detail), true
 	case activated:
-		vfgo.Violation(r, class, "session-activated-despite-bad-server-signature", detail)
+		return viol(class, "session-activated-despite-bad-server-signature", detail), true
 	default:
-		vfgo.OK(r, class, o)
+		if r.Sig == "otherdata" && lastVariant {
+			// one more member of the class: the data signed is the nonce of another, overlapping request
+			if key, d, driven := runOverlap(r); driven && key != "" {
+				return viol(class, key, d), true
+			} else if !driven {
+				return inconc("overlap case could not be driven: " + d), true
+			}
+			return okRes(class, map[string]any{"connect": o, "variants": len(sigVariants[r.Sig]), "overlap": "first refused, second created"}), true
+		}
+		return okRes(class, map[string]any{"connect": o, "variant": vname}), false
 	}
 }
